@@ -115,3 +115,49 @@ def replay_generic(rep):
     print(json.dumps(rep, indent=1)[:4000])
     print("re-run the property's search on the current tree: ./check <id> --tier thorough")
     return 1
+
+
+def c02(seed, tier, broken):
+    """independent numpy model of the documented measurement equations vs the real edges / graph"""
+    from lib.common import Rng
+    from lib import graphgen as G
+    from search import spec_np as S
+    import numpy as np
+    import math
+
+    n = _n(tier, broken, 30, 600)
+    ev = 0
+    found = []
+    for k in range(n):
+        rng = Rng(seed, "c02search|%d" % k)
+        g, desc = G.make_graph(rng, noise=rng.choice([0.0, 0.1, 1.0]))
+        total = 0.0
+        for ei, e in enumerate(g._edges):
+            spec = S.edge_error(e)
+            err = np.asarray(e.calc_error(), dtype=np.float64)
+            if spec is not None:
+                ev += 1
+                d = err - spec
+                if type(e).__name__ == "EdgeOdometry" and len(err) == 3 and type(e.vertices[0].pose).__name__ == "PoseSE2":
+                    d[2] = math.remainder(d[2], 2 * math.pi)
+                scale = 1 + float(np.max(np.abs(spec))) + max(float(np.max(np.abs(np.asarray(v.pose)))) for v in e.vertices) ** 2
+                if not float(np.max(np.abs(d))) <= 1e-9 * scale:
+                    found.append(dict(match="edge-error:%s:%s" % (type(e).__name__, type(e.vertices[0].pose).__name__), kind="edge_error", edge=desc["edges"][ei] if ei < len(desc["edges"]) else None, impl=err.tolist(), spec=spec.tolist(), desc=desc))
+                    return dict(found=found, evaluations=ev)
+            c = float(e.calc_chi2())
+            cs = S.edge_chi2(e, err)
+            ev += 1
+            if not abs(c - cs) <= 1e-9 * (1 + abs(cs)):
+                found.append(dict(match="edge-chi2", kind="edge_chi2", impl=c, spec=cs, desc=desc))
+                return dict(found=found, evaluations=ev)
+            # PSD information => chi2 >= 0
+            if c < -1e-9 * (1 + abs(c)):
+                found.append(dict(match="chi2-negative", kind="chi2_negative", impl=c, desc=desc))
+                return dict(found=found, evaluations=ev)
+            total += c
+        gc = float(g.calc_chi2())
+        ev += 1
+        if not abs(gc - total) <= 1e-9 * (1 + abs(total)):
+            found.append(dict(match="graph-chi2-sum", kind="graph_chi2", impl=gc, spec=total, desc=desc))
+            return dict(found=found, evaluations=ev)
+    return dict(found=found, evaluations=ev)
